@@ -100,11 +100,23 @@ class ValueClasses:
             self._build()
         a = np.asarray(a, dtype=float)
         flat = a.ravel()
-        idx = np.searchsorted(self._sorted, flat)
-        idx = np.clip(idx, 0, len(self._sorted) - 1)
-        if not np.all(self._sorted[idx] == flat):
-            raise MachineryError("ValueClasses.ids: value was not add()-ed before")
-        return self._cls[idx].reshape(a.shape)
+        fin = np.isfinite(flat)
+        if len(self._sorted) == 0:
+            if np.any(fin):
+                raise MachineryError("ValueClasses.ids: value was not add()-ed before")
+            idx = np.zeros(len(flat), dtype=int)
+            out = np.zeros(len(flat), dtype=int)
+        else:
+            idx = np.searchsorted(self._sorted, np.where(fin, flat, self._sorted[0]))
+            idx = np.clip(idx, 0, len(self._sorted) - 1)
+            if not np.all((self._sorted[idx] == flat) | ~fin):
+                raise MachineryError("ValueClasses.ids: value was not add()-ed before")
+            out = self._cls[idx].copy()
+        # values the code under test may produce but no oracle ever does: classes of their own (nan, +inf, -inf)
+        out[np.isnan(flat)] = 1000001
+        out[np.isposinf(flat)] = 1000002
+        out[np.isneginf(flat)] = 1000003
+        return out.reshape(a.shape)
 
     def representative(self, cid):
         if self._sorted is None:
